@@ -1,6 +1,7 @@
 //! Check registry: maps property ids to worker / replay implementations.
 
 pub mod crash;
+pub mod fault;
 pub mod history;
 pub mod logfmt;
 
@@ -11,7 +12,7 @@ pub const HISTORY_IDS: &[&str] = &["C01", "C03", "C04", "C07", "C09", "C10", "C1
 
 pub fn all_ids() -> Vec<&'static str> {
     let mut v: Vec<&'static str> = HISTORY_IDS.to_vec();
-    v.extend(["C02", "C16", "C12"]);
+    v.extend(["C02", "C16", "C12", "C08"]);
     v.sort();
     v
 }
@@ -46,6 +47,15 @@ pub fn meta(id: &str) -> Option<CheckMeta> {
             rule: "same journalled workloads; every append of n>=2 bytes to a WAL, manifest or CURRENT temp file is cut to 1, n/2 and n-1 bytes (thorough: every length for n<=64 and the 6/7/8-byte header boundary), the image is recovered with reuse_log_files true and false, must equal acknowledged (+ optionally in-flight) state, then 1-5 further writes (one of 40 kB in half of the points) are acknowledged, the database is closed and reopened with either setting and must contain them. evaluations = torn images evaluated; non-trivial = the torn file was reused by the recovery, or the tear is inside a fragment of a multi-fragment record; distinct by (workload hash, entry, length, settings)".into(),
             assumptions: fs_assume,
         }),
+        "C08" => Some(CheckMeta {
+            id: "C08",
+            level: "fault_enumeration",
+            rule: "proptest-generated workloads (writes, batches, gets, scans, flushes, compact_range, reopens; 20-70 ops) run once fault-free on FaultFs to number every filesystem call after the initial open (create, write/append, rename, remove, open-for-read, read, read_from, len, size, list_dir); then the workload is re-run with call p failing once (transient) and with p and all later calls failing (sticky), for every p (quick: all p when the run has <= 600 calls, else every non-read call plus a hashed eighth of the reads, capped at ~700 positions per workload). Oracle: a write that returned Ok is in the model, one that returned Err may be applied completely or not at all; every get/scan returns an allowed value or an error, never an older value/KeyNotFound/missing key; no call hangs; after disarming, close and reopen succeed and the contents equal the Ok writes plus all-or-nothing of each failed write. evaluations = faulted runs; non-trivial = the armed call was reached and >=1 further API call was made; distinct by (workload hash, position, mode)".into(),
+            assumptions: vec![
+                "an injected failure has no effect on the file (the call fails before doing anything); partially applied writes are C16's subject".into(),
+                "background compaction makes call numbering vary between runs; every run is still a valid single-fault execution and is judged on its own".into(),
+            ],
+        }),
         "C12" => Some(CheckMeta {
             id: "C12",
             level: "exploration",
@@ -64,6 +74,7 @@ pub fn worker(ctx: &WorkerCtx) -> WorkerResult {
         "C02" => return crash::worker(ctx, "C02", 60, 3000),
         "C16" => return crash::worker(ctx, "C16", 60, 2000),
         "C12" => return logfmt::worker(ctx),
+        "C08" => return fault::worker(ctx),
         _ => {}
     }
     panic!("unknown check {}", ctx.id);
@@ -75,6 +86,7 @@ pub fn replay_value(v: &Value) -> Result<(), String> {
         "history" => history::replay(v),
         "crashpoint" => crash::replay(v),
         "logfmt" => logfmt::replay(v),
+        "faultpoint" => fault::replay(v),
         other => Err(format!("unknown replay engine {other:?}")),
     }
 }
